@@ -72,8 +72,10 @@ pub enum Amt {
 #[cfg(not(feature = "fpdec"))]
 pub mod amt {
     use super::*;
-    #[cfg(feature = "lib-std")]
+    #[cfg(all(feature = "lib-std", not(feature = "fn-seam")))]
     pub const BACKEND: &str = "f64";
+    #[cfg(all(feature = "lib-std", feature = "fn-seam"))]
+    pub const BACKEND: &str = "f64-fnseam";
     #[cfg(not(feature = "lib-std"))]
     pub const BACKEND: &str = "f64-nostd";
     pub fn to_amount(a: Amt) -> AmountT {
